@@ -30,9 +30,26 @@ def describe(case):
                           comments=s.get('comments', False), ignore_kw=s.get('ignore_kw', 'ignore'),
                           bare_start=s.get('bare_start', False), parens=s.get('parens', False),
                           break_ops=s.get('break_ops', False))
-    return render.grammar(case['g'], st, bm=cfg.get('bytes', False), name=cfg.get('name'),
-                          ign_first=cfg.get('ign_first', False), ign_names=cfg.get('ign_names'),
-                          order=cfg.get('order'))
+    render.LAM_DEFAULTS = bool(cfg.get('lam_defaults'))
+    try:
+        return render.grammar(case['g'], st, bm=cfg.get('bytes', False), name=cfg.get('name'),
+                              ign_first=cfg.get('ign_first', False), ign_names=cfg.get('ign_names'),
+                              order=cfg.get('order'))
+    finally:
+        render.LAM_DEFAULTS = False
+
+
+def with_lambda_defaults(cases):
+    """The cases again, spelled with `lambda v_, x=x: ...` closures - only those whose description changes."""
+    out = []
+    for c in cases:
+        if 'g' not in c:
+            continue
+        c2 = dict(c)
+        c2['cfg'] = dict(c.get('cfg') or {}, lam_defaults=True)
+        if describe(c2) != describe(c):
+            out.append(c2)
+    return out
 
 
 def unproject(v):
@@ -94,16 +111,31 @@ def observe_case(case):
     return {'id': case['id'], 'desc': desc, 'build': ['ok'], 'obs': obs}
 
 
+# Shared between the parent and the (forked) workers: how many cases of the current run_real call timed out.  Once a
+# call with a budget has lost that many cases to timeouts, the remaining cases are handed back unobserved ("skipped"):
+# code that hangs on most inputs must yield a verdict (the confirmed timeouts) in minutes, not exhaust the time limit
+# of the check.  On code that answers, nothing is ever skipped.
+TIMEOUT_COUNT = mp.Value('i', 0)
+SKIPPED = 'skipped-after-timeouts'
+
+
 def _work(batch):
-    fn_name, cases = batch
+    fn_name, cases = batch[0], batch[1]
+    budget = batch[2] if len(batch) > 2 else None
     fn = WORKERS[fn_name]
     out = []
     if realrun.INIT_ERROR:
         return [{'id': c.get('id'), 'desc': None, 'build': ['harness-error', realrun.INIT_ERROR], 'obs': [],
                  'events': []} for c in cases]
     for c in cases:
+        if budget is not None and TIMEOUT_COUNT.value >= budget:
+            out.append({'id': c.get('id'), 'desc': None, 'build': [SKIPPED], 'obs': [], 'events': []})
+            continue
         try:
             out.append(fn(c))
+            if budget is not None and _has_timeout(out[-1]):
+                with TIMEOUT_COUNT.get_lock():
+                    TIMEOUT_COUNT.value += 1
         except BaseException as e:  # noqa
             if isinstance(e, (KeyboardInterrupt, SystemExit)):
                 raise
@@ -147,12 +179,17 @@ def _has_timeout(o):
     return o['build'][0] == 'timeout' or any(isinstance(x, (list, tuple)) and x and x[0] == 'timeout' for x in o['obs'])
 
 
-def run_real(cases, fn='observe_case', hooks=False, batch=25, confirm_timeouts=True):
+def run_real(cases, fn='observe_case', hooks=False, batch=25, confirm_timeouts=True, timeout_budget=None,
+             confirm_limit=24):
     """Observe `cases` in the worker pool; returns {id: observation}.
     A case that timed out is observed a second time, alone and with a six times
-    longer limit, so that a stall of the machine is never reported as a hang."""
+    longer limit, so that a stall of the machine is never reported as a hang.
+    With a timeout_budget, cases are skipped (build == [SKIPPED]) once that many
+    cases have timed out, and at most confirm_limit timed-out cases are observed
+    again (the others are skipped, too: an unconfirmed timeout is never reported)."""
     p = pool(hooks)
-    batches = [(fn, cases[i:i + batch]) for i in range(0, len(cases), batch)]
+    TIMEOUT_COUNT.value = 0
+    batches = [(fn, cases[i:i + batch], timeout_budget) for i in range(0, len(cases), batch)]
     out = {}
     for res in p.imap_unordered(_work, batches):
         for o in res:
@@ -167,6 +204,10 @@ def run_real(cases, fn='observe_case', hooks=False, batch=25, confirm_timeouts=T
                 cfg['timeout_scale'] = 6 * cfg.get('timeout_scale', 1)
                 c2['cfg'] = cfg
                 again.append(c2)
+        if timeout_budget is not None and len(again) > confirm_limit:
+            for c in again[confirm_limit:]:
+                out[c['id']] = {'id': c['id'], 'desc': None, 'build': [SKIPPED], 'obs': [], 'events': []}
+            again = again[:confirm_limit]
         if again:
             for res in p.imap_unordered(_work, [(fn, [c]) for c in again]):
                 for o in res:
